@@ -22,6 +22,7 @@ func c14(c *eng.Ctx, r *eng.Report) {
 		"R14.3 G1/G2.Unmarshal return a nil error only after the length test and, for a non-infinity point, IsOnCurve(); " +
 		"R14.4 Sign/VerifySig consult no process-local mutable state (no cache, package-variable store, map range, clock or randomness in their cone), so the verdict is a function of (key, message, signature) only; " +
 		"R14.5 wherever the bytes of a big integer are placed into a fixed-width big-endian buffer they are right-aligned (`copy(buf[W-len(b):], b)`), so values with leading zero bytes encode faithfully. " +
+		"R14.6 keys, signatures and scalars are values — Sign, VerifySig, GeneratePubkey, AggregatePubkeys and hashToG1 perform in-place curve operations only on objects they allocate (never through an argument or a shallow copy of one: Signature/Pubkey wrap a pointer), and every modular reduction of a scalar in the package is modulo the group order, so the scalar Sign multiplies by is the one GeneratePubkey exponentiates. " +
 		"Not decided: bilinearity, non-degeneracy, subgroup membership, soundness (algebraic; the baseline's curve tests sample them)."
 	r.Assume = []string{"bn256 Pair / PairIsEuqal implement the optimal Ate pairing and equality in GT"}
 	c14Verify(c, r)
@@ -29,6 +30,14 @@ func c14(c *eng.Ctx, r *eng.Report) {
 	c14Unmarshal(c, r)
 	c14Purity(c, r)
 	c14LeftPad(c, r)
+	// R14.6 keys, signatures and scalars are values: nothing in signing, verification, key derivation or
+	// aggregation writes through an input, and every scalar reduction is modulo the group order
+	r.Min("R14.6", 8)
+	inputsUntouched(c, r, "R14.6", []roEnt{
+		{"consensus/groupsig", "Sign"}, {"consensus/groupsig", "VerifySig"}, {"consensus/groupsig", "GeneratePubkey"},
+		{"consensus/groupsig", "AggregatePubkeys"}, {"consensus/groupsig", "hashToG1"},
+	})
+	groupsigScalarField(c, r, "R14.6")
 }
 
 func c14Verify(c *eng.Ctx, r *eng.Report) {
